@@ -31,6 +31,9 @@ SCENARIOS = [
     ("set-unknown-node-vs-its-presentation", "2.2",
      ["2;255;0;0;17;2.2"],
      ("setchild", 1, 1, 2, "1"), "1;255;0;0;17;2.2"),
+    ("set-on-newer-node-vs-line-of-a-newer-version", "2.1",      # the node's tables (2.2) differ from the gateway's (2.1)
+     ["1;255;0;0;17;2.3.2", "1;1;0;0;3;", "1;1;1;0;2;0", "1;255;3;0;22;7", ("setchild", 1, 1, 2, "1")],
+     ("setchild", 1, 1, 2, "0"), "1;255;3;0;32;500"),            # pre-sleep notification: not defined in 2.1
     ("update-fw-vs-config-request", "2.0",
      ["1;255;0;0;17;2.0", ("updatefw", 1, 1, 1, 40)],
      ("updatefw", 1, 1, 2, 64), "1;255;4;0;0;010001000300cdab0201"),
@@ -108,16 +111,31 @@ def make(sc):
     return build
 
 
-def files():
+def files(sc=None):
+    """Source files whose lines are yield points: the handlers, gateway, sensor, OTA and task code - plus the
+    version-table lookup and the validator for the scenario that is about them (more lines, more schedules)."""
     import mysensors
-    from mysensors import handler, ota, sensor, task
-    return [m.__file__ for m in (mysensors, handler, sensor, ota, task)]
+    from mysensors import const, handler, message, ota, sensor, task
+    mods = [mysensors, handler, sensor, ota, task]
+    if sc is not None and sc[0] == "set-on-newer-node-vs-line-of-a-newer-version":
+        mods += [const, message]
+    return [m.__file__ for m in mods]
+
+
+def warm_up():
+    """Module-level caches (imported constant modules) are filled before any exploration, so that every run of a
+    scenario executes the same lines (the explorer replays prefixes of earlier runs)."""
+    from mysensors.const import get_const
+    for v in ("1.4", "1.5", "2.0", "2.1", "2.2"):
+        get_const(v)
 
 
 def explore(sc, bound, limit=None):
     """All schedules of scenario sc up to `bound` preemptions. Yields (choices, trace, observation)."""
-    return sched.explore(make(sc), files(), bound, limit=limit)
+    warm_up()
+    return sched.explore(make(sc), files(sc), bound, limit=limit)
 
 
 def replay(sc, choices):
-    return sched.run_one(make(sc), files(), choices)
+    warm_up()
+    return sched.run_one(make(sc), files(sc), choices)
